@@ -22,7 +22,8 @@
    /repo is the correspondence check of lib/props/c05.py (AttemptsCheck.v). *)
 From Coq Require Import List Arith Bool.
 From Coercion.Base Require Import Plan.
-From Coercion.Attempts Require Import ActionRun ActionAuto ActionRunProofs ActionAutoProofs ActionTheorems.
+From Coercion.Attempts Require Import ActionRun ActionAuto ActionRunProofs ActionAutoProofs ActionTheorems
+  AttemptsCheck AttemptsCheckProofs.
 Import ListNotations.
 
 (* the fuel of the retry loop (retries + 2) always suffices: the total run_action is the real result *)
@@ -136,6 +137,19 @@ Theorem c05_model_trace_accepted :
     count_starts (w_trace (run_action retries script)) = w_calls (run_action retries script).
 Proof. exact thm_model_trace. Qed.
 Print Assumptions c05_model_trace_accepted.
+
+(* the checker is not stricter than the theorems: the boolean statement of C05 that the correspondence check
+   evaluates on every real observation (AttemptsCheck.prop_run: 1 <= calls <= retries+1, no final outcome before
+   the last invocation, last outcome final or retries used up, one attempt per invocation carrying what the
+   outcome demands, context cancelled exactly in the overruns, status from the last attempt) is true on the model's
+   own result for every input, and the whole per-run check (model comparison, monitor, automaton, property)
+   answers "fine" on it *)
+Theorem c05_checker_holds_on_model :
+  forall (retries : nat) (l : list outcome) (dflt : outcome),
+    prop_run retries (script_of l dflt) (obs_of_world l (run_action retries (script_of l dflt))) = true /\
+    check_run retries dflt (obs_of_world l (run_action retries (script_of l dflt))) = [0].
+Proof. intros. split; [apply model_satisfies_prop|apply check_run_on_model]. Qed.
+Print Assumptions c05_checker_holds_on_model.
 
 (* concrete instances (vm_compute): ActionTheorems.ex_run_2 (err, overrun, ok with retries 2: Completed, 3 attempts,
    context cancelled in the second invocation only), ex_run_1 (same script, retries 1: Failed after retries+1),
